@@ -88,13 +88,16 @@ func VerifEps(kv map[string]string) string {
 		f := strings.Split(s, ">")
 		pod := &api_v1.Pod{ObjectMeta: metav1.ObjectMeta{Name: f[0], Namespace: svc.Namespace, Labels: verifLabels(f[2])}}
 		pod.Status.PodIP = f[1]
-		c := api_v1.Container{Name: "c"}
-		for _, cp := range verifSplit(verifUnq(f[3]), "+") {
-			q := strings.Split(cp, "/")
-			n, _ := strconv.Atoi(q[2])
-			c.Ports = append(c.Ports, api_v1.ContainerPort{Name: verifUnq(q[0]), Protocol: api_v1.Protocol(q[1]), ContainerPort: int32(n)})
+		// containers are separated by `~` (a port name is unique per container only, so a sidecar may reuse a name under another protocol)
+		for ci, cs := range strings.Split(verifUnq(f[3]), "~") {
+			c := api_v1.Container{Name: "c" + strconv.Itoa(ci)}
+			for _, cp := range verifSplit(cs, "+") {
+				q := strings.Split(cp, "/")
+				n, _ := strconv.Atoi(q[2])
+				c.Ports = append(c.Ports, api_v1.ContainerPort{Name: verifUnq(q[0]), Protocol: api_v1.Protocol(q[1]), ContainerPort: int32(n)})
+			}
+			pod.Spec.Containers = append(pod.Spec.Containers, c)
 		}
-		pod.Spec.Containers = []api_v1.Container{c}
 		_ = podIdx.Add(pod)
 	}
 	svcStore := cache.NewStore(cache.DeletionHandlingMetaNamespaceKeyFunc)
